@@ -33,7 +33,22 @@ for name in sorted(os.listdir(os.path.join(V, "seeded"))):
         shutil.rmtree(scratch, ignore_errors=True)
         continue
     env = dict(os.environ, VERIF_REPO=scratch, VERIF_EVIDENCE_DIR="/var/tmp/seed_evidence")
-    p = subprocess.run(["python3", os.path.join(V, "tools", "driver.py"), "check", pid, "--tier", tier], capture_output=True, env=env, cwd=V)
+    # only the units of this property that verify a file the change touches can notice it
+    touched = set(re.findall(r"^\+\+\+ b/(\S+)", open(os.path.join(d, "patch.diff")).read(), re.M))
+    sys.path.insert(0, V)
+    from tools.driver import load_units
+    us = [u.name for u in load_units().values() if pid in u.props and (tier == "thorough" or u.tier == "quick") and
+          (u.runner or u.src in touched or any(x in touched for x in u.extra_src))]
+    if not us:
+        res[name] = {"property": pid, "tier": tier, "result": "missed", "lines": ["no unit of %s verifies %s" % (pid, ",".join(sorted(touched)))]}
+        print(name, "missed (no unit on the touched files)")
+        shutil.rmtree(scratch, ignore_errors=True)
+        json.dump(res, open(mp, "w"), indent=1)
+        continue
+    cmdl = ["python3", os.path.join(V, "tools", "driver.py"), "check", pid, "--tier", tier]
+    for n in us:
+        cmdl += ["--unit", n]
+    p = subprocess.run(cmdl, capture_output=True, env=env, cwd=V)
     out = p.stdout.decode(errors="replace")
     viol = [l for l in out.splitlines() if l.startswith("VIOLATION") or l.strip().startswith("failed obligation")]
     res[name] = {"property": pid, "tier": tier, "exit": p.returncode,
